@@ -37,6 +37,7 @@ fn generate(seed: u64, tier: Tier) -> Scenario {
     let env = draw_env(&mut r);
     let mut cfg = GenCfg::draw(&mut r, &opts, false);
     cfg.owners = true;
+    cfg.unnamed_owners = true;
     cfg.symlinks = true;
     let mut g = Gen::new(r.derive("gen"));
     let root_meta = g.root_meta(&cfg);
@@ -71,10 +72,32 @@ fn run(seed: u64, tier: Tier, acc: &mut Acc) -> Vec<Found> {
     }
 }
 
+/// Conserve records owners by NAME: two numeric ids that both have no name on this machine
+/// are the same (absent) owner to it, and that is not a difference it can report.
+fn id_names() -> &'static (BTreeMap<u32, String>, BTreeMap<u32, String>) {
+    static T: std::sync::OnceLock<(BTreeMap<u32, String>, BTreeMap<u32, String>)> = std::sync::OnceLock::new();
+    T.get_or_init(|| {
+        let parse = |path: &str| -> BTreeMap<u32, String> {
+            let mut m = BTreeMap::new();
+            for line in std::fs::read_to_string(path).unwrap_or_default().lines() {
+                let f: Vec<&str> = line.split(':').collect();
+                if f.len() > 2 {
+                    if let Ok(id) = f[2].parse::<u32>() {
+                        m.entry(id).or_insert_with(|| f[0].to_string());
+                    }
+                }
+            }
+            m
+        };
+        (parse("/etc/passwd"), parse("/etc/group"))
+    })
+}
+
 fn changed(a: &SNode, b: &SNode) -> bool {
+    let (users, groups) = id_names();
     a.kind != b.kind
-        || a.uid != b.uid
-        || a.gid != b.gid
+        || users.get(&a.uid) != users.get(&b.uid)
+        || groups.get(&a.gid) != groups.get(&b.gid)
         || a.mode != b.mode
         || (a.kind == 'f' && (a.data.len() != b.data.len() || a.mtime != b.mtime))
         || (a.kind == 'l' && a.target != b.target)
